@@ -77,7 +77,7 @@ def parseImpl (impl : String) : List String × Nat × Nat :=
 def lookup (l : List (Nat × Nat)) (m : Nat) : Nat := ((l.find? (·.1 == m)).map (·.2)).getD 0
 
 /-- monitor one op from the implementation's observation only -/
-def monitor (mon : Mon) (op : Op) (impl : String) : Mon × List String :=
+def monitor (bits : Nat) (mon : Mon) (op : Op) (impl : String) : Mon × List String :=
   let (outw, st, ph) := parseImpl impl
   let stored : Option Nat := if st = 0 then none else some st
   let m := opMember op
@@ -94,9 +94,10 @@ def monitor (mon : Mon) (op : Op) (impl : String) : Mon × List String :=
   let (evs, f1) : List C01.Ev × List String :=
     match op, outw with
     | .getTS _ count, ["ts", ms, l] =>
-      let e : C01.Ev := ⟨mon.idx, mon.idx, natArg ms, natArg l - count, natArg l⟩
+      let raw := natArg l / 2 ^ bits
+      let e : C01.Ev := ⟨mon.idx, mon.idx, natArg ms, raw - count, raw, natArg l⟩
       let okOrder := mon.evs.all (fun a => decide (C01.valuesLt a e))
-      let okWf := decide (C01.wellFormed PdModel.Generated.Tso.physicalShiftBits e) && decide (count ≤ natArg l)
+      let okWf := decide (C01.wellFormed PdModel.Generated.Tso.physicalShiftBits e) && decide (count ≤ raw)
       (mon.evs ++ [e],
         (if okOrder then [] else [s!"sig=C01.timestamp-not-above-earlier-grants ms={e.ms} lo={e.lo} hi={e.hi}"]) ++
         (if okWf then [] else [s!"sig=C01.logical-out-of-range ms={e.ms} lo={e.lo} hi={e.hi}"]))
@@ -118,15 +119,18 @@ def monitor (mon : Mon) (op : Op) (impl : String) : Mon × List String :=
     | _ => mon.ambig
   ({ evs := evs, idx := mon.idx + 1, stored := stored, phys := phys, ambig := ambig }, f1 ++ f2 ++ f3)
 
-def mkCfg (si gap : Nat) : Cfg :=
+def mkCfg (si gap : Nat) (bits : Nat := 0) (suffix : Nat := 0) : Cfg :=
   { guard := PdModel.Generated.Tso.updateTimestampGuard, saveInterval := si,
     maxLogical := PdModel.Generated.Tso.maxLogical, maxResetGapMs := gap,
-    maxRetry := PdModel.Generated.Tso.maxRetryCount }
+    maxRetry := PdModel.Generated.Tso.maxRetryCount, bits := bits, suffix := suffix }
 
 def step (d : DState) (opLine : String) (impl : String) : DState × StepOut :=
   match words opLine with
   | ["reset", si, gap] =>
     ({ model := init (mkCfg (natArg si) (natArg gap)) }, { model := "ok @0 0:0:0:0" })
+  -- a local allocator: `bits` suffix bits, this allocator's suffix
+  | ["reset", si, gap, bits, suffix] =>
+    ({ model := init (mkCfg (natArg si) (natArg gap) (natArg bits) (natArg suffix)) }, { model := "ok @0 0:0:0:0" })
   -- client-side pure functions
   | ["csplit", p, l, b, c] =>
     let vals := PdModel.Tso.clientSplit (natArg l) (natArg c) (natArg b)
@@ -143,7 +147,7 @@ def step (d : DState) (opLine : String) (impl : String) : DState × StepOut :=
       | _ => (impl, 0)
     let gs : List C01.Ev := ((words a).drop 1).filterMap (fun g =>
       match g.splitOn ":" with
-      | [ms, lo, hi, s, f] => some ⟨natArg s, natArg f, natArg ms, natArg lo, natArg hi⟩
+      | [ms, lo, hi, s, f] => some ⟨natArg s, natArg f, natArg ms, natArg lo, natArg hi, natArg hi⟩
       | _ => none)
     let fails :=
       (if C01.check PdModel.Generated.Tso.physicalShiftBits gs then [] else
@@ -168,7 +172,7 @@ def step (d : DState) (opLine : String) (impl : String) : DState × StepOut :=
             (s2, s!"{Out.str o} ; {Out.str o2}", queued1.filter (fun (q : Nat × Op) => q.1 != m))
           | none => (s1, Out.str o, queued1)
         | _ => (s1, Out.str o, queued1)
-      let (mon', fails) := monitor d.mon op impl
+      let (mon', fails) := monitor d.model.cfg.bits d.mon op impl
       ({ model := s2, queued := queued2, mon := mon' },
        { model := s!"{outStr} {viewStr s2 m}", fails := fails })
 
